@@ -51,6 +51,11 @@ def parse_array(lines_by_R):
                 h = head.split()
                 A.copies[('wr', int(h[1]), int(h[2]))] = tail.split()
                 continue
+            if l[:3] == 'WZ ' and ':' in l:
+                head, tail = l.split(':', 1)
+                h = head.split()
+                A.copies[('wz', int(h[1]), int(h[2]))] = tail.split()
+                continue
             if l[:3] == 'MC ' and ':' in l:
                 head, tail = l.split(':', 1)
                 h = head.split()
@@ -158,6 +163,15 @@ def oracle_array_updates(A, V, I, maxlen):
         for i, want in enumerate(WEXP):
             if got.get(i) != [want]:
                 fails.append({'what': 'array<long> element 6 after async_%s with operand 4 (index %d, %d ranks) is %s, expected %d' % (WNAMES[i], i, R, got.get(i), want), 'R': R})
+    for R in Rs:
+        gz = {}
+        for r in range(R):
+            for tok in copies.get(('wz', R, r), []):
+                i, v = tok.split('=')
+                gz[int(i)] = gz.get(int(i), []) + [int(v)]
+        for i, (nm, want) in enumerate((('bit_and', 0), ('bit_or', 6), ('bit_xor', 6), ('logical_and', 0), ('logical_or', 1), ('multiplies', 0), ('plus', 6), ('minus', 6))):
+            if gz and gz.get(i) != [want]:
+                fails.append({'what': 'array<long> element 6 after async_%s with operand 0 (index %d, %d ranks) is %s, expected %d' % (nm, i, R, gz.get(i), want), 'R': R})
     for R in Rs:
         for len_ in range(maxlen + 1):
             n += 1
